@@ -69,7 +69,7 @@ Definition serialize (fat32 : bool) (e : dirent) : M (list N) :=
 (* ---- OnDiskDirEntry (src/fat/ondiskdirentry.rs); `sl` = the 32 bytes of a slot ---- *)
 Definition is_end (sl : list N) : bool := get8 sl 0 =? 0.
 Definition is_valid (sl : list N) : bool := negb (is_end sl) && negb (get8 sl 0 =? 229).
-Definition matches (sl name : list N) : bool := list_eqb (firstn 11 sl) name.
+Definition matches (sl name : list N) : bool := negb (is_lfn (get8 sl 11)) && list_eqb (firstn 11 sl) name.
 Definition get_entry (fat32 : bool) (sl : list N) (blk off : N) : dirent :=
   let attr := get8 sl 11 in
   let cl := if fat32 then N.lor (N.shiftl (le16 sl 20) 16) (le16 sl 26) else le16 sl 26 in
